@@ -95,6 +95,7 @@ func init() {
 		},
 		rtPkg + "Symbolic": func(fr *frame, a []value) value { return !fr.i.m.isConcrete },
 		rtPkg + "Yield":    func(fr *frame, a []value) value { fr.i.m.yield("Yield"); return nil },
+		rtPkg + "Jitter":   func(fr *frame, a []value) value { return nil },
 
 		// --- logging / printing: no-ops; log.Panic* ≡ panic ---
 		"log.Print":    noop,
